@@ -3,7 +3,7 @@ import itertools, json, os, subprocess, time
 from ..interp import Interp, Obj, Sym, View, vkey, _Ref, _ValPlace
 from ..build import AnalysisBroken
 from ..lib_c08 import (Fn, Summary, select, Uninterpretable, StepInterp, int_locals_written_in, find_member_loop,
-                       IterInterp, enclosing_loops, generic_args, may_write_through)
+                       IterInterp, enclosing_loops, generic_args, may_write_through, HeaderTypes, leaves)
 
 PU = 'parse.c'
 
@@ -18,8 +18,10 @@ def run(P, rep, tier):
         'the summary is compared, as a function, with the psABI/gcc step function on a grid of layout states that covers two periods of '
         'every alignment involved, so an equivalent rewrite of a formula is not an alarm. attribute_list, the _Alignas specifier and the '
         'three declaration sites are interpreted on concrete/abstract inputs and the alignment that reaches the object is compared with '
-        '"attribute else type". stddef.h is read through clang and compared with the types the compiler gives sizeof, pointer '
-        'difference and wide literals. Not decided: the fold of the step function over member sequences (the step + entry + exit '
+        '"attribute else type". The step and the final size are judged on every path whose condition holds at a grid state, for packed and unpacked '
+        'types (fields of the type that are not layout state are unconstrained). stddef.h is read through clang and compared with the types the compiler gives sizeof, pointer '
+        'difference and wide literals; every ABI-visible typedef of stddef.h, stdarg.h and stdatomic.h is laid out by the psABI rules from its declaration and '
+        'its size, alignment, signedness (and for va_list the member offsets) are compared with the platform ABI. Not decided: the fold of the step function over member sequences (the step + entry + exit '
         'obligations are the induction argument), declarators, initialisers, offsetof (a macro).')
     rep.assumptions += [
         'calloc succeeds and zero-fills', 'equal()/consume()/skip() compare a token with a spelling (tokenize.c)',
@@ -27,9 +29,11 @@ def run(P, rep, tier):
         'a struct_union_decl() result has size 0 (complete; checked for definitions by R08.3 definition/*/complete) or -1 (forward declaration) and alignment >= 1',
         'struct_members() writes members/is_flexible of the type it is given and attribute_list() is_packed/align (each checked on its own); declspec() only adds to *attr',
         'packed + explicit member _Alignas is outside the oracle (GNU extension interplay); packed layouts are compared with gcc, the rest with psABI 3.1.2',
+        'platform ABI of the header typedefs: gcc <stddef.h>/<stdarg.h>/<stdatomic.h> with glibc <stdint.h> on x86-64 (int_fast16/32/64_t are long); _Atomic T has the size and alignment of T (T up to 8 bytes)',
     ]
     import traceback
-    for rule, f in (('R08.3', r083), ('R08.2', r082), ('R08.1', r081), ('R08.4', r084), ('R08.4', r084_alignas_specifier), ('R08.4', r084_specifier_state), ('R08.5', r085)):
+    for rule, f in (('R08.3', r083), ('R08.2', r082), ('R08.1', r081), ('R08.4', r084), ('R08.4', r084_alignas_specifier), ('R08.4', r084_specifier_state), ('R08.5', r085),
+                    ('R08.5', r085_abi_layout)):
         try:
             f(P, u, rep)
         except AnalysisBroken as ex:          # one rule's anchors vanishing must not silence the others
@@ -308,33 +312,36 @@ def layout_fn(P, u, rep, fname, union):
                 bad = {}
                 for e in pts:
                     e = dict(e); e['Z0'] = 0; e['A0'] = 1
-                    s = select(steps, e)
-                    if s is None:
+                    # every path whose condition holds at e: fields outside the layout state (the member type's kind, the
+                    # enclosing type's is_flexible, ...) are unconstrained, so each such path is taken for some program
+                    hits = [x for x in steps if x.applies(e)]
+                    if not hits:
                         er = [x for x in errs if x[1].applies(e)]
                         if er:
                             bad.setdefault('placement', (e, 'the compiler stops with %s() instead of laying the member out' % er[0][2], None, ()))
                             continue
                         raise Uninterpretable('no path summary applies to the state %r' % (e,))
                     want = (oracle_union if union else oracle_struct)(cls, packed, e)
-                    got = {}
-                    for k in ('bits', 'offset', 'bit_offset', 'align', 'size'):
-                        if s.out.get(k) is not None:
-                            got[k] = s.out[k](e)
-                    if 'offset' in got and 'bit_offset' in got:
-                        got['pos'] = 8 * got['offset'] + got['bit_offset']
-                    if not union and cls[1] and not cls[3] and 'bit_offset' in got and 'unit-fit' not in bad:
-                        # what the code generator relies on (one load/store of the declared type at `offset`): the field lies inside that unit
-                        if not (0 <= got['bit_offset'] and got['bit_offset'] + e['W'] <= 8 * e['S']):
-                            bad['unit-fit'] = (e, 'the bit-field occupies bits %d..%d of the %d-byte unit at its offset: bits outside the unit are never loaded or stored'
-                                               % (got['bit_offset'], got['bit_offset'] + e['W'] - 1, e['S']), s, ())
-                    for k, w in want.items():
-                        if k not in got:
-                            raise Uninterpretable('summary has no value for %s' % k)
-                        if got[k] != w:
-                            rank = (e['S'] == 0, e['TA'] != e['S'] and e['MA'] == e['TA'], abs(e['S'] - 4), e['A'], e['B'], e['Z'], e['W'], e['MA'])
-                            cur = bad.get(GROUP[k])
-                            if cur is None or rank < cur[3]:
-                                bad[GROUP[k]] = (e, '%s is %d, %s: %d' % (WHAT[k], got[k], 'gcc' if packed else 'psABI', w), s, rank)
+                    for s in hits:
+                        got = {}
+                        for k in ('bits', 'offset', 'bit_offset', 'align', 'size'):
+                            if s.out.get(k) is not None:
+                                got[k] = s.out[k](e)
+                        if 'offset' in got and 'bit_offset' in got:
+                            got['pos'] = 8 * got['offset'] + got['bit_offset']
+                        if not union and cls[1] and not cls[3] and 'bit_offset' in got and 'unit-fit' not in bad:
+                            # what the code generator relies on (one load/store of the declared type at `offset`): the field lies inside that unit
+                            if not (0 <= got['bit_offset'] and got['bit_offset'] + e['W'] <= 8 * e['S']):
+                                bad['unit-fit'] = (e, 'the bit-field occupies bits %d..%d of the %d-byte unit at its offset: bits outside the unit are never loaded or stored'
+                                                   % (got['bit_offset'], got['bit_offset'] + e['W'] - 1, e['S']), s, ())
+                        for k, w in want.items():
+                            if k not in got:
+                                raise Uninterpretable('summary has no value for %s' % k)
+                            if got[k] != w:
+                                rank = (e['S'] == 0, e['TA'] != e['S'] and e['MA'] == e['TA'], abs(e['S'] - 4), e['A'], e['B'], e['Z'], e['W'], e['MA'])
+                                cur = bad.get(GROUP[k])
+                                if cur is None or rank < cur[3]:
+                                    bad[GROUP[k]] = (e, '%s is %d, %s: %d' % (WHAT[k], got[k], 'gcc' if packed else 'psABI', w), s, rank)
                 groups = ('placement', 'type-align') if not union else ('union-size', 'type-align')
                 if not union and cls[1] and not cls[3]:
                     groups += ('unit-fit',)
@@ -352,42 +359,62 @@ def layout_fn(P, u, rep, fname, union):
             except (Uninterpretable, KeyError, ZeroDivisionError) as ex:
                 rep.undecided('R08.3', base, 'layout step of %s not interpretable for this member class: %s: %s' % (fname, type(ex).__name__, ex), where=where)
     # ---- exit: final size -------------------------------------------------------------
-    base = '%s:%s:final-size' % (PU, fname)
-    try:
-        it, paths = run_mode('exit', CLASSES[0], False)
-        sums = []
-        for ctx, out in paths:
-            if out[0] == 'ret' and getattr(ctx, 'c08_reached', False) and isinstance(out[1], Obj):
-                t = out[1]
-                sums.append(Summary(ctx, {'size': t.fields.get('size'), 'align': t.fields.get('align')}))
-        if not sums:
-            rep.undecided('R08.3', base, 'no returning path after the member loop', where=where)
-            return
-        bad = None
-        for A in ALIGNS:
-            for X in range(0, 300):
-                e = {'Ax': A, 'Bx': X, 'Zx': X, 'Z0': 0, 'A0': 1, 'S': 1, 'TA': 1, 'MA': 1}
-                s = select(sums, e)
-                if s is None:
-                    raise Uninterpretable('no path summary applies to the exit state %r' % (e,))
-                want = up(X, A) if union else up(X, 8 * A) // 8
-                got = s.out['size'](e)
-                ga = s.out['align'](e)
-                if (got != want or ga != A) and bad is None:
-                    bad = (e, got, want, ga, s)
-        if bad:
-            e, got, want, ga, s = bad
-            if union:
-                st = 'largest member %d bytes, alignment %d' % (e['Zx'], e['Ax'])
+    # decided for both values of is_packed (packed removes padding *between* members; the size is still a multiple of the
+    # alignment, which attribute aligned(N) can raise on a packed type), and for every path through the code after the loop:
+    # fields of the type that are not part of the layout state (is_flexible, name, ...) are unconstrained, so each path is
+    # reachable for some type and must produce the rounded extent.
+    for packed in (False, True):
+        base = '%s:%s:final-size%s' % (PU, fname, '/packed' if packed else '')
+        try:
+            it, paths = run_mode('exit', CLASSES[0], packed)
+            sums = []
+            lost = None
+            for ctx, out in paths:
+                if not getattr(ctx, 'c08_reached', False):
+                    continue
+                if out[0] == 'ret' and isinstance(out[1], Obj):
+                    t = out[1]
+                    sums.append(Summary(ctx, {'size': t.fields.get('size'), 'align': t.fields.get('align')}))
+                elif out[0] == 'noreturn':
+                    lost = lost or (Summary(ctx, {}), out[1])
+            if not sums:
+                rep.undecided('R08.3', base, 'no returning path after the member loop', where=where)
+                continue
+            bad = None
+            for A in ALIGNS:
+                for X in range(0, 300):
+                    e = {'Ax': A, 'Bx': X, 'Zx': X, 'Z0': 0, 'A0': 1, 'S': 1, 'TA': 1, 'MA': 1}
+                    hits = [s for s in sums if s.applies(e)]
+                    if not hits:
+                        if lost is not None and lost[0].applies(e):
+                            if bad is None:
+                                bad = (e, None, None, None, None, lost[1])
+                            continue
+                        raise Uninterpretable('no path summary applies to the exit state %r' % (e,))
+                    want = up(X, A) if union else up(X, 8 * A) // 8
+                    for s in hits:
+                        got = s.out['size'](e)
+                        ga = s.out['align'](e)
+                        if (got != want or ga != A) and bad is None:
+                            bad = (e, got, want, ga, s, None)
+            if bad:
+                e, got, want, ga, s, stop = bad
+                kind = ('packed ' if packed else '') + ('union' if union else 'struct')
+                if union:
+                    st = 'largest member %d bytes, alignment %d' % (e['Zx'], e['Ax'])
+                else:
+                    st = 'members end at bit %d, alignment %d' % (e['Bx'], e['Ax'])
+                if stop:
+                    rep.ob('R08.3', base, False, '%s (%s): the compiler stops with %s() instead of computing the size' % (kind, st, stop), where=where, facts={'state': e})
+                else:
+                    rep.ob('R08.3', base, False, '%s (%s): sizeof is %d and _Alignof %d, %s: %d and %d (size is the extent rounded up to the alignment%s)' % (
+                        kind, st, got, ga, 'gcc' if packed else 'psABI', want, e['Ax'],
+                        '; packed removes the padding between members, not the tail padding that an aligned(N) attribute asks for' if packed else ''), where=where,
+                        facts={'state': e, 'summary': {k: f.text for k, f in s.out.items()}, 'path': s.trail})
             else:
-                st = 'members end at bit %d, alignment %d' % (e['Bx'], e['Ax'])
-            rep.ob('R08.3', base, False, '%s (%s): sizeof is %d and _Alignof %d, psABI: %d and %d (size is the extent rounded up to the alignment)' % (
-                'union' if union else 'struct', st, got, ga, want, e['Ax']), where=where,
-                facts={'state': e, 'summary': {k: f.text for k, f in s.out.items()}})
-        else:
-            rep.ob('R08.3', base, True, '', where=where)
-    except (Uninterpretable, KeyError, ZeroDivisionError) as ex:
-        rep.undecided('R08.3', base, 'size computation after the member loop not interpretable: %s: %s' % (type(ex).__name__, ex), where=where)
+                rep.ob('R08.3', base, True, '', where=where)
+        except (Uninterpretable, KeyError, ZeroDivisionError) as ex:
+            rep.undecided('R08.3', base, 'size computation after the member loop not interpretable: %s: %s' % (type(ex).__name__, ex), where=where)
 
 
 def _guarded(rep, key, f, *a):
@@ -400,7 +427,7 @@ def _guarded(rep, key, f, *a):
 def r083(P, u, rep):
     rep.rule('R08.3', 'struct_decl/union_decl lay one more member out exactly as psABI 3.1.2 prescribes (placement, bit-field units, alignment contribution, packed) '
              'and round the final size to the alignment; struct and union take a member\'s alignment from the same source; attributes (before the tag and after the brace, for new, '
-             'known and absent tags) and flexible arrays reach the type that is laid out', floor=74)
+             'known and absent tags) and flexible arrays reach the type that is laid out', floor=76)
     _guarded(rep, '%s:struct_decl:layout' % PU, layout_fn, P, u, rep, 'struct_decl', False)
     _guarded(rep, '%s:union_decl:layout' % PU, layout_fn, P, u, rep, 'union_decl', True)
     _guarded(rep, '%s:attribute_list:attributes' % PU, r083_attributes, P, u, rep)
@@ -1599,9 +1626,50 @@ def _ty_arg_of_branch(fn, lit):
     return found
 
 
+_SIZEOF_MACRO = {   # __SIZEOF_<X>__ -> (psABI size, ty_* object of the compiler that must agree or None)
+    'SHORT': (2, 'ty_short'), 'INT': (4, 'ty_int'), 'LONG': (8, 'ty_long'), 'LONG_LONG': (8, 'ty_long'), 'FLOAT': (4, 'ty_float'),
+    'DOUBLE': (8, 'ty_double'), 'LONG_DOUBLE': (16, 'ty_ldouble'), 'POINTER': (8, None), 'SIZE_T': (8, 'ty_ulong'), 'PTRDIFF_T': (8, 'ty_long'),
+    'WCHAR_T': (4, 'ty_int'), 'WINT_T': (4, 'ty_uint'), 'INT128': (16, None), 'FLOAT128': (16, None), 'FLOAT80': (16, None),
+}
+
+
+def _sizeof_macros(P, rep, tg):
+    """the predefined __SIZEOF_<type>__ macros tell programs (and system headers) the size of a type: each equals the psABI size
+    and the size the compiler's own type table gives the type"""
+    pu = P.unit('preprocess.c')
+    seen = 0
+    for fnm, fd in sorted(pu.functions.items()):
+        for c in fd.calls('define_macro'):
+            a = c.args()
+            nm = a[0].str_value() if len(a) == 2 else None
+            if not (isinstance(nm, str) and nm.startswith('__SIZEOF_') and nm.endswith('__') and len(nm) > 11):
+                continue
+            seen += 1
+            key = 'preprocess.c:%s:%s' % (fnm, nm)
+            where = 'preprocess.c:%d' % c.line
+            x = nm[len('__SIZEOF_'):-2]
+            val = a[1].str_value()
+            if x not in _SIZEOF_MACRO or not isinstance(val, str):
+                rep.undecided('R08.5', key, 'predefined macro %s: the oracle does not know this type (or its value is not a literal)' % nm, where=where)
+                continue
+            want, g = _SIZEOF_MACRO[x]
+            own = tg.get(g, {}).get('size') if g else None
+            try:
+                got = int(val.strip(), 0)
+            except ValueError:
+                rep.undecided('R08.5', key, 'predefined macro %s expands to `%s`, not to an integer literal' % (nm, val), where=where)
+                continue
+            rep.ob('R08.5', key, got == want and (own is None or own == got),
+                   '%s is predefined as %d; psABI size of the type: %d%s - code that sizes buffers or selects layouts by this macro disagrees with sizeof' % (
+                       nm, got, want, (', sizeof in this compiler (%s): %s' % (g, own)) if g else ''), where=where)
+    if not seen:
+        rep.undecided('R08.5', 'preprocess.c:init_macros:__SIZEOF__', 'no __SIZEOF_<type>__ macro is predefined any more: shape not recognised')
+
+
 def r085(P, u, rep):
     rep.rule('R08.5', 'size_t / ptrdiff_t / wchar_t / max_align_t of include/stddef.h are the types the compiler itself gives to sizeof, pointer difference and wide literals, '
-             'and those are the psABI types (unsigned long, long, int; max_align_t aligned to 16)', floor=9)
+             'and those are the psABI types (unsigned long, long, int; max_align_t aligned to 16); every typedef of stddef.h / stdarg.h / stdatomic.h that programs share with '
+             'code built by another compiler has the platform\'s object layout (size, alignment, signedness; va_list: psABI Fig. 3.34)', floor=64)
     H = 'include/stddef.h'
     tds = header_typedefs(P, H)
     tg = type_globals(P)
@@ -1666,6 +1734,7 @@ def r085(P, u, rep):
             rep.ob('R08.5', 'preprocess.c:init_macros:__SIZE_TYPE__', ma is not None and (ma[1], ma[2], ma[3] or 0) == ha,
                    '__SIZE_TYPE__ expands to `%s` but size_t is `%s`: headers that define size_t from __SIZE_TYPE__ disagree with <stddef.h>' % (macro[0], hd[0]),
                    where='preprocess.c:%d' % macro[1])
+    _sizeof_macros(P, rep, tg)
     # --- ptrdiff_t
     hd, ha = td('ptrdiff_t')
     ns = u.fn('new_sub')
@@ -1720,3 +1789,101 @@ def r085(P, u, rep):
             rep.ob('R08.5', '%s:max_align_t:alignment' % H, al >= max(mx, 16),
                    'max_align_t is `%s` (alignment %d) but the most aligned scalar type has alignment %d (long double; psABI: _Alignof(max_align_t) == 16): storage aligned for max_align_t is misaligned for long double' % (t, al, max(mx, 16)),
                    where='%s:%d' % (H, line))
+
+
+# =====================================================================================
+# R08.5 (cont.) object layout of the types the bundled headers define
+# =====================================================================================
+# What the platform (x86-64 psABI; gcc's <stddef.h>/<stdarg.h>/<stdatomic.h> with glibc's integer types) says an object of the
+# type looks like: (sizeof, _Alignof, signedness of an integer type or None, scalar members [(offset, size, class)] or None).
+# Only the shape is compared, never the spelling: any definition with this layout is fine.
+_VA_ELEM = [(0, 4, 'int'), (4, 4, 'int'), (8, 8, 'ptr'), (16, 8, 'ptr')]        # psABI Figure 3.34
+_VA_NAMES = {'gp_offset': 0, 'fp_offset': 4, 'overflow_arg_area': 8, 'reg_save_area': 16}
+
+
+def _i(size, uns):
+    return (size, size, uns, None)
+
+
+ABI_TYPEDEFS = {
+    'include/stddef.h': {
+        'size_t': _i(8, 1), 'ptrdiff_t': _i(8, 0), 'wchar_t': _i(4, 0),
+        'max_align_t': (32, 16, None, None),                 # struct { long long; long double; }: two 16-byte slots
+    },
+    'include/stdarg.h': {
+        'va_list': (24, 8, None, _VA_ELEM), '__gnuc_va_list': (24, 8, None, _VA_ELEM),
+    },
+    'include/stdatomic.h': {
+        'memory_order': (4, 4, None, None),
+        'atomic_flag': (1, 1, None, None), 'atomic_bool': (1, 1, None, None),
+        'atomic_char': _i(1, 0), 'atomic_schar': _i(1, 0), 'atomic_uchar': _i(1, 1),
+        'atomic_short': _i(2, 0), 'atomic_ushort': _i(2, 1), 'atomic_int': _i(4, 0), 'atomic_uint': _i(4, 1),
+        'atomic_long': _i(8, 0), 'atomic_ulong': _i(8, 1), 'atomic_llong': _i(8, 0), 'atomic_ullong': _i(8, 1),
+        'atomic_char16_t': _i(2, 1), 'atomic_char32_t': _i(4, 1), 'atomic_wchar_t': _i(4, 0),
+        'atomic_int_least8_t': _i(1, 0), 'atomic_uint_least8_t': _i(1, 1), 'atomic_int_least16_t': _i(2, 0), 'atomic_uint_least16_t': _i(2, 1),
+        'atomic_int_least32_t': _i(4, 0), 'atomic_uint_least32_t': _i(4, 1), 'atomic_int_least64_t': _i(8, 0), 'atomic_uint_least64_t': _i(8, 1),
+        # glibc <stdint.h> on x86-64: int_fast8_t is signed char, int_fast16_t / int_fast32_t / int_fast64_t are long
+        'atomic_int_fast8_t': _i(1, 0), 'atomic_uint_fast8_t': _i(1, 1), 'atomic_int_fast16_t': _i(8, 0), 'atomic_uint_fast16_t': _i(8, 1),
+        'atomic_int_fast32_t': _i(8, 0), 'atomic_uint_fast32_t': _i(8, 1), 'atomic_int_fast64_t': _i(8, 0), 'atomic_uint_fast64_t': _i(8, 1),
+        'atomic_intptr_t': _i(8, 0), 'atomic_uintptr_t': _i(8, 1), 'atomic_size_t': _i(8, 1), 'atomic_ptrdiff_t': _i(8, 0),
+        'atomic_intmax_t': _i(8, 0), 'atomic_uintmax_t': _i(8, 1),
+    },
+}
+
+
+def _scalar_of_spelling(t):
+    a = _lp64_of_spelling(t)
+    if a is None:
+        return None
+    cls, size, align, uns = a
+    return (cls, size, align, uns)
+
+
+def _show_leaves(ls):
+    return ', '.join('%s of %d bytes at offset %d' % ({'int': 'integer', 'ptr': 'pointer', 'float': 'floating member', 'bool': '_Bool', 'enum': 'enum'}.get(c, c), s, o) for o, s, c in ls)
+
+
+def r085_abi_layout(P, u, rep):
+    """Every ABI-visible typedef of a bundled header is laid out by the psABI rules (struct: members in order, each at the next
+    multiple of its alignment, size rounded to the largest alignment; union: largest member; array: n elements) from the
+    declaration clang reads, and the result is compared with the platform's object layout of that type."""
+    for H, table in ABI_TYPEDEFS.items():
+        try:
+            ht = HeaderTypes(P.header(H), _scalar_of_spelling, tolerate_errors=True)
+        except AnalysisBroken as ex:
+            rep.undecided('R08.5', '%s:abi-layout' % H, 'header not readable: %s' % ex)
+            continue
+        for name, (wsize, walign, wuns, wleaves) in table.items():
+            key = '%s:%s:abi-layout' % (H, name)
+            if name not in ht.typedefs:
+                rep.undecided('R08.5', key, 'typedef %s vanished from %s' % (name, H))
+                continue
+            where = '%s:%d' % (H, ht.lines.get(name, 0))
+            spelled = ht.typedefs[name].get('type', {}).get('qualType')
+            try:
+                l = ht.layout(name)
+                ls = leaves(l) if wleaves is not None else None
+            except Uninterpretable as ex:
+                rep.undecided('R08.5', key, '%s is `%s`: the layout oracle cannot size it (%s)' % (name, spelled, ex), where=where)
+                continue
+            bad = []
+            if l['size'] != wsize:
+                bad.append('sizeof(%s) is %s, platform ABI: %d' % (name, l['size'], wsize))
+            if l['align'] != walign:
+                bad.append('_Alignof(%s) is %d, platform ABI: %d' % (name, l['align'], walign))
+            if wuns is not None and (l['cls'] != 'int' or int(bool(l['unsigned'])) != wuns):
+                bad.append('%s is %s, platform ABI: %s integer' % (name, ('an unsigned integer' if l['unsigned'] else 'a signed integer') if l['cls'] == 'int' else 'of class ' + l['cls'],
+                                                                   'an unsigned' if wuns else 'a signed'))
+            if wleaves is not None and not bad and ls != wleaves:
+                bad.append('%s consists of %s; platform ABI: %s' % (name, _show_leaves(ls), _show_leaves(wleaves)))
+            if wleaves is _VA_ELEM and not bad:
+                e = l['elem'] if l['cls'] == 'array' else l
+                for fn_, off, _f in (e.get('fields') or []):
+                    if fn_ in _VA_NAMES and off != _VA_NAMES[fn_]:
+                        bad.append('the member %s of %s is at offset %d, psABI Figure 3.34: %d (the prologue of a variadic function and libc fill and read it there)' % (fn_, name, off, _VA_NAMES[fn_]))
+            layout_differs = l['size'] != wsize or l['align'] != walign or (wleaves is not None and ls != wleaves)
+            rep.ob('R08.5', key, not bad,
+                   '%s is `%s`: %s - %s' % (name, spelled, '; '.join(bad),
+                                            ('an object that holds a %s by value (struct member, array element, argument) has another size or other offsets here than in code built by gcc/clang' % name)
+                                            if layout_differs else 'comparisons and conversions of its values differ from code built by gcc/clang'),
+                   where=where, facts={'layout': {'size': l['size'], 'align': l['align'], 'class': l['cls']}})
